@@ -433,7 +433,8 @@ Definition resolve (s : state) (k : key) : outcome (option nat) := arena_get (st
     a [Result] is propagated with [?] at that point.  The key was a local variable; nothing gives the slot
     back, nothing was pushed under it, so the audio thread never sees it: the slot stays reserved for ever
     (ghost [x_leaked]).  With [built = true] the caller drops the payload it had built.  The base steps are
-    lifted unchanged. *)
+    lifted unchanged.  (Props.v: [leak_accounting] — every such failure costs exactly one slot, for good,
+    in every schedule; [reserve_then_fail_refuted] — the witnesses; [no_leak_without_late_failure].) *)
 Record xstate := mkX { xs : state; x_leaked : list key }.
 Inductive xlabel := XL (l : label) | X_fail_late (built : bool).
 
